@@ -162,7 +162,7 @@ prop('C09', COMMON +
      'it runs its closure only from (Idle, queue empty), exactly like sync\'s immediate row (TR-immediate, TR-sibling); after the immediate run the queue goes Idle and is rescheduled (TOK-resched); no running state without a runner is reachable (PA-stuck).',
      ['Busy has written nothing (TOK-leak on try_sync)', 'never blocks (ORD-C09-noblock)', 'immediate only on Idle and empty (TR-immediate, TR-sibling)', 'Idle then reschedule_queue after the run (TOK-resched)', 'no ownerless running state (PA-stuck)', 'a closure that panics in the immediate run leaves the queue Panicked, not Running for ever (TOK-guard); releases go to Idle, never to a parked state or to Panicked (TR-roles, TR-dead)'],
      ['"succeeds once quiescent" as a statement about time'],
-     [(RP.tok_leak, None), (RO.c09_noblock, None), (RP.tr_immediate, None), (RP.tr_sibling, None, ['try_sync']), (RP.tok_resched, None), (RP.pa_rules, {'PA-stuck', 'PA'}), (RP.tok_exec, None), (RP.tr_roles, None), (RP.tr_dead, None), (RG.tok_guard, None), (RO.free_delegates, None, ['try_sync|']), (RE.eo, None, ['^Scheduler::try_sync', '^<Scheduler::try_sync', '^Scheduler::sync_immediate', '^<Scheduler::sync_immediate', '^try_sync', '^<try_sync']), (RP.tr_base, None, ['^Scheduler::try_sync', '^<Scheduler::try_sync', '^Scheduler::sync_immediate', '^<Scheduler::sync_immediate'])])
+     [(RP.tok_leak, None), (RO.c09_noblock, None), (RP.tr_immediate, None), (RP.tr_sibling, None, ['try_sync']), (RP.tok_resched, None), (RP.pa_rules, {'PA-stuck', 'PA'}), (RP.tok_exec, None), (RP.tr_roles, None), (RP.tr_dead, None), (RG.tok_guard, None), (RO.free_delegates, None, ['try_sync|']), (RL.try_rule, None), (RE.eo, None, ['^Scheduler::try_sync', '^<Scheduler::try_sync', '^Scheduler::sync_immediate', '^<Scheduler::sync_immediate', '^try_sync', '^<try_sync']), (RP.tr_base, None, ['^Scheduler::try_sync', '^<Scheduler::try_sync', '^Scheduler::sync_immediate', '^<Scheduler::sync_immediate'])])
 
 prop('C10', COMMON +
      'Decided: no scheduler-wide lock is held at any job-execution or blocking site (BL); the lock-order graph is acyclic (LO); a ready queue goes to a dormant thread or to a newly spawned one below the maximum, then scheduling is retried (ORD-C10-spawn); '
@@ -190,7 +190,7 @@ prop('C13', COMMON +
      'QueueResumer has no Drop impl and resume consumes it. "Later work waits, then continues in order" is derived from the C01/C02/C06 rules for a job that stays Pending (TOK-requeue, QD-queue, PARK-wake).',
      ['suspend job shape (ORD-C13)', 'a Pending job keeps the queue and is resumed by its waker (TOK-requeue, QD-queue, PARK-wake)', 'sync callers that pile up behind a suspension each stay registered for the wake-up (QD-waiters)'],
      ['all dynamic content: this is the thinnest claim; order of held operations after resumption is derived, not separately decided'],
-     [(RO.c13, None), (RP.park_wake, None), (RQ.qd_wake_blocked, None), (RU.ua_leak, None), (RE.eo, None, ['^Scheduler::suspend', '^<Scheduler::suspend', '^Scheduler::sync_background', '^<Scheduler::sync_background', '^SchedulerCore::reschedule_queue', '^<SchedulerCore::reschedule_queue']), (RP.tr_base, None, ['^JobQueue::drain', '^<JobQueue::drain', '^WakeQueue', '^<WakeQueue', '^SchedulerCore::reschedule_queue', '^<SchedulerCore::reschedule_queue', '^Scheduler::sync', '^<Scheduler::sync'])] + G_ORDER + G_POOL)
+     [(RO.c13, None), (RP.park_wake, None), (RQ.qd_wake_blocked, None), (RU.ua_leak, None), (RE.eo, None, ['^Scheduler::suspend', '^<Scheduler::suspend', '^Scheduler::sync_background', '^<Scheduler::sync_background', '^SchedulerCore::reschedule_queue', '^<SchedulerCore::reschedule_queue']), (RP.tr_base, None, ['^JobQueue::drain', '^<JobQueue::drain', '^WakeQueue', '^<WakeQueue', '^WakeThread', '^<WakeThread', '^SchedulerCore::reschedule_queue', '^<SchedulerCore::reschedule_queue', '^Scheduler::sync', '^<Scheduler::sync'])] + G_ORDER + G_POOL)
 
 prop('C14', COMMON +
      'Decided: the four lifetime-erasure obligations — a sync caller does not return before its lifetime-erased job has been run and dropped (UA-wait), the payload pointer is dereferenced only inside jobs of the object\'s own queue (UA-confine), '
